@@ -173,27 +173,7 @@ def check(ctx):
 
     # ------------------------------------------------------------------ R3 getter / setter
     g = ctx.py.func(TRAJ, "Trajectory.unitcell_vectors.getter")
-    calls = [n for n in walk_no_nested(g) if isinstance(n, ast.Call) and call_name(n) == "lengths_and_angles_to_box_vectors"]
-    if not calls:
-        ctx.undecided("C17-R3", g, TRAJ, "Trajectory.unitcell_vectors.getter", "conversion call", "not found")
-    else:
-        want = ["self._unitcell_lengths[:, 0]", "self._unitcell_lengths[:, 1]", "self._unitcell_lengths[:, 2]",
-                "self._unitcell_angles[:, 0]", "self._unitcell_angles[:, 1]", "self._unitcell_angles[:, 2]"]
-        got = [inline_locals(g, a) for a in calls[0].args]
-        for i, (wv, gv) in enumerate(zip(want, got + [""] * 6)):
-            ctx.decide(wv == gv, "C17-R3", calls[0], TRAJ, "Trajectory.unitcell_vectors.getter", "argument %d is %s" % (i, wv), "",
-                       "argument %d of lengths_and_angles_to_box_vectors is `%s`, expected `%s`" % (i, gv, wv))
-        r = [n for n in walk_no_nested(g) if isinstance(n, ast.Return) and n.value is not None and not (isinstance(n.value, ast.Constant) and n.value.value is None)]
-        ok = len(r) == 1 and inline_locals(g, r[0].value, depth=1).replace(" ", "") == "np.swapaxes(np.dstack((v1,v2,v3)),1,2)"
-        tg = [n for n in walk_no_nested(g) if isinstance(n, ast.Assign) and isinstance(n.targets[0], ast.Tuple)]
-        ok = ok and bool(tg) and src(tg[0].targets[0]) == "(v1, v2, v3)"
-        ctx.decide(ok, "C17-R3", r[0] if r else g, TRAJ, "Trajectory.unitcell_vectors.getter", "rows of the result are v1, v2, v3", "", "the three vectors are stacked in another order / orientation")
-    s = ctx.py.func(TRAJ, "Trajectory.unitcell_vectors.setter")
-    txt = src(s).replace(" ", "")
-    for needle, what in (("v1=vectors[:,0,:]", "v1 = row 0"), ("v2=vectors[:,1,:]", "v2 = row 1"), ("v3=vectors[:,2,:]", "v3 = row 2"),
-                         ("a,b,c,alpha,beta,gamma=box_vectors_to_lengths_and_angles(v1,v2,v3)", "conversion call and unpack order"),
-                         ("self._unitcell_lengths=np.vstack((a,b,c)).T", "lengths = (a,b,c)"), ("self._unitcell_angles=np.vstack((alpha,beta,gamma)).T", "angles = (alpha,beta,gamma)")):
-        ctx.decide(needle in txt, "C17-R3", s, TRAJ, "Trajectory.unitcell_vectors.setter", what, "", "setter no longer contains `%s`" % needle)
+    _r3_getter_setter(ctx, g)
 
     ctx.rule("C17-R8", "wherever cell lengths and cell angles are passed together they are read from the same object")
     r8_cell_fields_travel_together(ctx)
@@ -582,3 +562,142 @@ def r8_cell_fields_travel_together(ctx):
                                    % (a, sorted(ba), b, sorted(bb)))
     if n_sites < 20:
         raise AnalysisError("only %d call sites pass a lengths/angles pair (24 confirmed by hand)" % n_sites)
+
+
+# ---------------------------------------------------------------------------------------------------
+def _r3_getter_setter(ctx, g):
+    """Trajectory.unitcell_vectors by tensor value numbering (sa/tensym.py) on 2 frames: the conversion functions are summarised as
+    per-frame maps whose arguments are checked element-wise; what is decided is the plumbing around them - which column goes into which
+    parameter, and how the three vectors / six scalars are stacked into (n_frames, 3, 3) / (n_frames, 3)."""
+    from ..tensym import TenSym, Ten, Obj, Unsupported as TUnsupported, ShapeError
+    from ..poly import Poly, Rat
+    F = 2
+    L, A = Ten.sym("len", (F, 3)), Ten.sym("ang", (F, 3))
+    state = {}
+
+    def same(ev, x, y):
+        try:
+            return ev.first_difference(x, y) is None
+        except TUnsupported:
+            return False
+
+    def to_vectors(ev, call):
+        args = [ev.ex(a) for a in call.args]
+        want = [ev.getitem(L, (slice(None), k)) for k in range(3)] + [ev.getitem(A, (slice(None), k)) for k in range(3)]
+        state["getter_args"] = [k for k in range(6) if not (len(args) == 6 and same(ev, args[k], want[k]))]
+        n = args[0].shape[0] if args and isinstance(args[0], Ten) and args[0].ndim == 1 else F        # one vector per row handed in
+        return tuple(Ten.sym("v%d" % (k + 1), (n, 3)) for k in range(3))
+    from ..tensym import run_paths
+    import itertools
+    q = "Trajectory.unitcell_vectors.getter"
+    names = ["a = lengths[:, 0]", "b = lengths[:, 1]", "c = lengths[:, 2]", "alpha = angles[:, 0]", "beta = angles[:, 1]", "gamma = angles[:, 2]"]
+    want = Ten((F, 3, 3), [Rat(Poly.var("v%d[%d,%d]" % (k + 1, f, c))) for f, k, c in itertools.product(range(F), range(3), range(3))])
+
+    def make():
+        state.pop("getter_args", None)
+        me_ = Obj(_unitcell_lengths=Ten(L.shape, L.data), _unitcell_angles=Ten(A.shape, A.data), n_frames=F, _lenient=True)
+        return TenSym({}, models={"lengths_and_angles_to_box_vectors": to_vectors}), {"self": me_}
+    try:
+        paths = run_paths(make, g)
+        bad_args, bad_res, und = None, None, None
+        for taken, ev, got in paths:
+            cond = " and ".join(("" if t else "not ") + "(" + c + ")" for c, t in taken)
+            ba = state.get("getter_args")
+            if ba and bad_args is None:
+                bad_args = ([names[k] for k in ba], cond)
+            if isinstance(got, ShapeError):
+                diff = "array operations do not fit: %s" % got
+            elif isinstance(got, Exception):
+                und = und or (str(got), cond)
+                continue
+            else:
+                diff = ev.first_difference(got, want) if got is not None else "nothing returned"
+            if diff is not None and bad_res is None:
+                bad_res = (diff, cond)
+        if und and bad_args is None and bad_res is None:
+            ctx.undecided("C17-R3", g, TRAJ, q, "stacking", "not evaluable%s: %s" % ((" when " + und[1]) if und[1] else "", und[0]))
+        ctx.decide(bad_args is None, "C17-R3", g, TRAJ, q, "conversion is called with (a, b, c, alpha, beta, gamma) = the columns of every frame's lengths and angles", "",
+                   "argument(s) %s of lengths_and_angles_to_box_vectors are not the whole column of every frame%s" % (bad_args[0] if bad_args else "", (" when " + bad_args[1]) if bad_args and bad_args[1] else ""))
+        ctx.decide(bad_res is None, "C17-R3", g, TRAJ, q, "result[f, k, :] = k-th box vector of frame f (on each of %d data-dependent paths)" % len(paths), "",
+                   "the vectors returned are not those of each frame's own lengths and angles%s: %s" % ((" when " + bad_res[1]) if bad_res and bad_res[1] else "", bad_res[0] if bad_res else ""))
+    except ShapeError as e:
+        ctx.violated("C17-R3", g, TRAJ, q, "result[f, k, :] = k-th box vector of frame f", "array operations do not fit for 2 frames: %s" % e)
+    except TUnsupported as e:
+        ctx.undecided("C17-R3", g, TRAJ, q, "stacking", "not evaluable: %s" % e)
+    # a getter that stores on self keeps a memo: every assignment of the fields it was computed from must reset it
+    stores = sorted({t.attr for n in walk_no_nested(g) for t in (n.targets if isinstance(n, ast.Assign) else [n.target] if isinstance(n, (ast.AugAssign, ast.AnnAssign)) else [])
+                     if isinstance(t, ast.Attribute) and isinstance(t.value, ast.Name) and t.value.id == "self"})
+    if not stores:
+        ctx.holds("C17-R3", g, TRAJ, q, "the getter stores nothing on self (no memo to invalidate)", "")
+    else:
+        m = ctx.py.mod(TRAJ)
+        missing = []
+        for qq, fn in sorted(m.functions.items()):
+            if not qq.startswith("Trajectory."):
+                continue
+            for blk in _blocks(fn):
+                sets = {t.attr for st_ in blk for t in (st_.targets if isinstance(st_, ast.Assign) else []) if isinstance(t, ast.Attribute) and isinstance(t.value, ast.Name) and t.value.id == "self"}
+                if sets & {"_unitcell_lengths", "_unitcell_angles"} and fn is not g:
+                    for memo in stores:
+                        if memo not in sets:
+                            missing.append((qq, memo, blk[0]))
+        ctx.decide(not missing, "C17-R3", missing[0][2] if missing else g, TRAJ, missing[0][0] if missing else q,
+                   "memo field(s) %s of the getter are reset wherever _unitcell_lengths / _unitcell_angles are assigned" % stores, "",
+                   "%s assigns the cell but leaves `self.%s`, filled by the unitcell_vectors getter, as it was: the next read returns the vectors of the previous cell"
+                   % (missing[0][0] if missing else "", missing[0][1] if missing else ""))
+    # None without a cell
+    ts0 = TenSym({})
+    try:
+        r0 = ts0.run_fn(g, self=Obj(_unitcell_lengths=None, _unitcell_angles=None, n_frames=F))
+        ctx.decide(r0 is None, "C17-R3", g, TRAJ, q, "None when the trajectory has no cell", "", "without a cell the getter returns %r" % (r0,))
+    except TUnsupported as e:
+        ctx.undecided("C17-R3", g, TRAJ, q, "no cell", "not evaluable: %s" % e)
+    # ---- setter
+    s = ctx.py.func(TRAJ, "Trajectory.unitcell_vectors.setter")
+    q = "Trajectory.unitcell_vectors.setter"
+    V = Ten.sym("vec", (F, 3, 3))
+
+    def to_lengths(ev, call):
+        args = [ev.ex(a) for a in call.args]
+        want = [ev.getitem(V, (slice(None), k, slice(None))) for k in range(3)]
+        state["setter_args"] = [k for k in range(3) if not (len(args) == 3 and same(ev, args[k], want[k]))]
+        return tuple(Ten.sym(nm, (F,)) for nm in ("a", "b", "c", "alpha", "beta", "gamma"))
+    me = Obj(_unitcell_lengths=None, _unitcell_angles=None, n_frames=F)
+    ts = TenSym({}, models={"box_vectors_to_lengths_and_angles": to_lengths})
+    ts.assume = lambda test: False if "vectors is None" in test else None
+    try:
+        ts.run_fn(s, self=me, vectors=V)
+        bad = state.get("setter_args")
+        ctx.decide(bad == [], "C17-R3", s, TRAJ, q, "conversion is called with rows 0, 1, 2 of every frame's matrix", "", "argument(s) %s of box_vectors_to_lengths_and_angles are not vectors[:, k, :]" % (bad,))
+        for attr, names in (("_unitcell_lengths", ("a", "b", "c")), ("_unitcell_angles", ("alpha", "beta", "gamma"))):
+            want = Ten((F, 3), [Rat(Poly.var("%s[%d]" % (names[k], f))) for f in range(F) for k in range(3)])
+            gotv = getattr(me, attr)
+            diff = ts.first_difference(gotv, want) if gotv is not None else "left as None"
+            ctx.decide(diff is None, "C17-R3", s, TRAJ, q, "%s[f] = (%s) of frame f" % (attr, ", ".join(names)), "", "%s is stored in another order / orientation: %s" % (attr, diff))
+    except ShapeError as e:
+        ctx.violated("C17-R3", s, TRAJ, q, "stacking of the six scalars", "array operations do not fit for 2 frames: %s" % e)
+    except TUnsupported as e:
+        ctx.undecided("C17-R3", s, TRAJ, q, "stacking", "not evaluable: %s" % e)
+    me = Obj(_unitcell_lengths=L, _unitcell_angles=A, n_frames=F)
+    try:
+        TenSym({}).run_fn(s, self=me, vectors=None)
+        ctx.decide(me._unitcell_lengths is None and me._unitcell_angles is None, "C17-R3", s, TRAJ, q, "vectors = None clears lengths and angles together", "", "assigning None leaves lengths=%r angles=%r" % (me._unitcell_lengths, me._unitcell_angles))
+    except TUnsupported as e:
+        ctx.undecided("C17-R3", s, TRAJ, q, "clearing", "not evaluable: %s" % e)
+
+
+def _blocks(fn):
+    """statement lists of a function body (each branch of an if / loop / try is its own list)"""
+    out = []
+
+    def visit(stmts):
+        out.append(stmts)
+        for st in stmts:
+            for field in ("body", "orelse", "finalbody"):
+                sub = getattr(st, field, None)
+                if isinstance(sub, list) and sub and isinstance(sub[0], ast.stmt) and not isinstance(st, (ast.FunctionDef, ast.ClassDef)):
+                    visit(sub)
+            for h in getattr(st, "handlers", []) or []:
+                visit(h.body)
+    visit(fn.body)
+    return out
